@@ -173,13 +173,25 @@ def replay_data(date, data, n):
     return {"values": v, "fails": fails}
 
 
+_N = 3
+
+
+def _chunk(ck, dates):
+    seen = set()
+    for d in dates:
+        run_date(ck, d, _N, seen)
+    ck.extra["distinct_slices"] = ck.extra.get("distinct_slices", 0) + len(seen)
+
+
 def run(tier):
     ck = common.Check("C17", tier)
     n = 3 if tier == "quick" else 4
     dates, st = date_classes(tier)
-    seen = set()
-    for d in dates:
-        run_date(ck, d, n, seen)
+    global _N
+    _N = n
+    chunks = [dates[i::common.JOBS] for i in range(common.JOBS) if dates[i::common.JOBS]] if len(dates) > 1 else [dates]
+    common.run_parallel(ck, _chunk, chunks)
+    seen = range(ck.extra.get("distinct_slices", 0))
     ck.bounds = {"persons": n, "households": "<= 2", "date_classes": len(dates), "distinct_slices": len(seen), "eps": "1e-6",
                  "window": "quick: 4 dates >= 2015; thorough: every date region >= 2015-01-01"}
     ck.assumptions = ["frontier quantities (needs, income, entitlements before the priority checks, wealth terms) are arbitrary non-negative group-level values "
